@@ -1,6 +1,8 @@
 package rules
 
 import (
+	"regexp"
+	"os"
 	"fmt"
 	"go/token"
 	"go/types"
@@ -156,10 +158,22 @@ func checkC18(P *core.Program, R *core.Report) {
 	}
 	type edge struct{ g, callee, pos string }
 	var edges []edge
+	// The inventory is of the block-processing structure: which operations a Begin/EndBlocker
+	// (or a function only block processing uses) lets propagate instead of isolating.  A
+	// function that message handlers use as well is shared code: its own error returns
+	// (validation sentinels, deeper callees) were already able to fail the block through the
+	// inventoried edge that leads into it, so they are not separate structure — and a new
+	// validation in such a function is not a new way to abort block processing.
+	msgReach := P.Reach(P.FindRoots().Msg)
+	shared := 0
 	for len(work) > 0 {
 		g := work[len(work)-1]
 		work = work[:len(work)-1]
 		if core.IsGeneratedOrAux(P.File(g.Pos())) {
+			continue
+		}
+		if msgReach[g] {
+			shared++
 			continue
 		}
 		ff := P.Facts(g)
@@ -227,6 +241,7 @@ func checkC18(P *core.Program, R *core.Report) {
 		R.Add("C18-error-edge", e.g, "propagates error of "+e.callee, e.pos, ok, "an error that reaches the ABCI return of Begin/EndBlock (or an epoch hook, which epochs BeginBlocker turns into a panic) halts the chain; frozen instances are triaged. "+why)
 	}
 	R.Analysed["error_propagation_closure"] = len(closure)
+	R.Analysed["error_closure_shared_with_msg_handlers_not_inventoried"] = shared
 	// (D) divisions
 	for _, fn := range fns {
 		if hasRecover(fn) {
@@ -244,7 +259,7 @@ func checkC18(P *core.Program, R *core.Report) {
 			if nonZeroConst(ff, div) {
 				continue
 			}
-			desc := ff.Describe(div)
+			desc := stableDesc(ff, div)
 			seenDiv[desc]++
 			construct := "divisor " + desc
 			if guardedNonZero(ff, c, div) {
@@ -266,6 +281,9 @@ func checkC18(P *core.Program, R *core.Report) {
 	for _, m := range []map[string]string{T.PanicEdges, T.ErrorEdges, T.Divisions} {
 		for k := range m {
 			if !used[k] {
+				if os.Getenv("ELYSLINT_STALE") != "" {
+					fmt.Fprintf(os.Stderr, "STALE\t%s\n", k)
+				}
 				R.Add("C18-table", k, "stale entry", "-", true, "frozen abort edge no longer present (harmless)")
 			}
 		}
@@ -344,8 +362,28 @@ func guardedNonZero(ff *core.FuncFacts, at ssa.Instruction, div ssa.Value) bool 
 		}
 		return false
 	}
+	// the same quantity in another spelling (conversions, re-loaded fields, constant factors)
+	pd := ff.PolyOf(div)
+	samePoly := func(v ssa.Value) bool {
+		if v == nil || v == core.ZeroMarker || v == core.NilMarker {
+			return false
+		}
+		if !core.IsMathType(v.Type()) {
+			if _, basic := v.Type().Underlying().(*types.Basic); !basic {
+				return false
+			}
+		}
+		px := ff.PolyOf(v)
+		return len(px.T) > 0 && (pd.ProportionalTo(px) || pd.Neg().ProportionalTo(px))
+	}
 	for _, a := range ff.At(at) {
 		switch {
+		case (a.Rel == core.NE || a.Rel == core.LT) && (a.B == core.ZeroMarker || isZeroConst(a.B)) && a.Rel == core.NE && samePoly(a.A):
+			return true
+		case (a.Rel == core.NE || a.Rel == core.LT) && (a.A == core.ZeroMarker || isZeroConst(a.A)) && samePoly(a.B):
+			return true
+		case a.Rel == core.LT && (a.B == core.ZeroMarker || isZeroConst(a.B)) && samePoly(a.A):
+			return true // X < 0 is non-zero too
 		case a.Rel == core.NE && (a.B == core.ZeroMarker || isZeroConst(a.B)) && isRel(a.A):
 			return true
 		case a.Rel == core.LT && (a.A == core.ZeroMarker || isZeroConst(a.A)) && isRel(a.B):
@@ -520,7 +558,13 @@ func checkZeroCoins(P *core.Program, R *core.Report, fns []*ssa.Function, T *c18
 			coins := ff.Fwd(args[len(args)-1])
 			els, isLit := core.SliceLiteral(coins)
 			if !isLit {
-				continue // NewCoins(…) sanitises zero coins; other values are not built here
+				// NewCoins(…) sanitises zero coins; other values are not built here
+				if ncs, ok := coins.(*ssa.Call); ok && core.CalleeName(ncs.Common()) == "NewCoins" {
+					if inner, ok := core.SliceLiteral(ff.Fwd(ncs.Common().Args[0])); ok && len(inner) > 0 {
+						R.Add("C18-zero-coin", key, "NewCoins(…) → "+ck, P.Pos(P.InstrPos(c)), true, "sdk.NewCoins drops zero coins before the bank sees them")
+					}
+				}
+				continue
 			}
 			for _, e := range els {
 				nc, isNC := ff.Fwd(e).(*ssa.Call)
@@ -552,3 +596,21 @@ func checkZeroCoins(P *core.Program, R *core.Report, fns []*ssa.Function, T *c18
 		}
 	}
 }
+
+// stableDesc names a divisor for the frozen table: its polynomial normal form (so that
+// conversions and re-spellings do not matter) with every leaf named by where it comes from
+// (parameter path, callee) instead of by a value number, so that unrelated edits in the
+// same function do not rename it.
+func stableDesc(ff *core.FuncFacts, v ssa.Value) string {
+	p, _ := ff.PolyOf(v).Rename(func(k string, lv ssa.Value) (string, bool) {
+		if lv == nil {
+			return k, true
+		}
+		d := ff.Describe(lv)
+		d = strings.NewReplacer("*", "", "/", "÷", "+", "＋", " ", "").Replace(d)
+		return d, true
+	})
+	return sumBlockRe.ReplaceAllString(p.String(), "Sum")
+}
+
+var sumBlockRe = regexp.MustCompile(`Sum@b-?\d+`)
